@@ -96,45 +96,6 @@ theorem C13_blocktime (slot : Nat) (f : Bytes) (cut : Nat) (hc : cut ≤ f.lengt
     run (btGetP slot) (f.take cut) = run (btGetP slot) f ∨ ∃ e, run (btGetP slot) (f.take cut) = .err e :=
   truncation_safe _ f cut hc
 
-theorem hw_btOpen {f : Bytes} {ix : BT} (h : run btOpenP f = .ok ix) : 46 + 4 * ix.cap ≤ hw btOpenP f := by
-  unfold btOpenP at h ⊢
-  simp only [run, hw] at h ⊢
-  cases h0 : readAt f 0 14 with
-  | none => simp [h0] at h
-  | some m =>
-    simp only [h0] at h ⊢
-    by_cases hm : m ≠ Generated.blocktimeMagic
-    · simp [hm, run] at h
-    · simp only [hm, if_false, run, hw] at h ⊢
-      cases h1 : readAt f 14 8 with
-      | none => simp [h1] at h
-      | some s =>
-        simp only [h1] at h ⊢
-        cases h2 : readAt f 22 8 with
-        | none => simp [h2] at h
-        | some e =>
-          simp only [h2] at h ⊢
-          cases h3 : readAt f 30 8 with
-          | none => simp [h3] at h
-          | some ep =>
-            simp only [h3] at h ⊢
-            by_cases c1 : unle s / Generated.epochLen ≠ unle e / Generated.epochLen
-            · simp [c1, run] at h
-            · by_cases c2 : unle s / Generated.epochLen ≠ unle ep
-              · simp [c1, c2, run] at h
-              · simp only [c1, c2, if_false, run, hw] at h ⊢
-                cases h4 : readAt f 38 8 with
-                | none => simp [h4] at h
-                | some c =>
-                  simp only [h4] at h ⊢
-                  cases h5 : readAt f 46 (4 * unle c) with
-                  | none => simp [h5] at h
-                  | some vals =>
-                    simp only [h5, Res.ok.injEq] at h ⊢
-                    subst h
-                    dsimp only
-                    omega
-
 /-- **exact-size read**: the decoder needs all `46 + 4·capacity` bytes, so ANY cut inside the index is an open
     error — whatever slot is asked for -/
 theorem C13_blocktime_any_cut_is_an_open_error (slot : Nat) (f : Bytes) (ix : BT) (h : run btOpenP f = .ok ix)
@@ -364,6 +325,22 @@ def car0 : Bytes := [1, 0xa0] ++ ([37] ++ List.replicate 36 0 ++ [9])
 example : run (carGetP (fun _ => true) 2 38 (List.replicate 36 0)) car0 = .ok [9] := by decide
 example : run (carGetP (fun _ => true) 2 38 (List.replicate 36 0)) (car0.take 39) = .err "short read" := by decide
 example : run (carGetP (fun _ => true) 2 38 (List.replicate 36 0)) (car0.take 1) = .err "short read" := by decide
+
+-- sig-exists: a header with ONE prefix entry (prefix 0x0201 -> offset 0), one bucket holding the hash 77
+def bk0 : Bytes :=
+  B.le 4 35 ++ (Generated.bucketteerMagic ++ B.le 8 Generated.bucketteerVersion ++ [0] ++ B.le 8 1 ++ [1, 2] ++ B.le 8 0)
+    ++ (B.le 4 1 ++ B.le 8 77)
+example : run (bkHasP (fun _ => none) 513 77) bk0 = .ok true := by decide
+example : run (bkHasP (fun _ => none) 513 78) bk0 = .ok false := by decide
+example : run (bkHasP (fun _ => none) 513 77) (bk0.take (bk0.length - 1)) = .err "short read" := by decide
+example : run (bkHasP (fun _ => none) 513 77) (bk0.take 20) = .err "short read" := by decide
+
+-- linked log with the identity "compression": one record holding the entry (1, 2, 3, flags 0), no previous record
+def zid : Gsfa.Zstd := ⟨id, some⟩
+def ll0 : Bytes := [13, 1, 2, 3, 0] ++ List.replicate 9 0
+example : run (llReadP zid 0 14) ll0 = .ok ([⟨1, 2, 3, 0⟩], ⟨0, 0⟩) := by decide
+example : run (llReadP zid 0 14) (ll0.take 13) = .err "short read" := by decide
+example : run (llWalkP zid 5 ⟨0, 14⟩ 10 []) ll0 = .ok [⟨1, 2, 3, 0⟩] := by decide
 
 -- the read-site table is not empty and does contain sites that are exempt for a stated reason
 example : Generated.readSites.length > 20 := by decide
